@@ -620,3 +620,60 @@ def stale_inode_writes(fn):
             r = fn.reach(fn.after(m), avoid=fresh)
             out.append((m, w_, w_ in r))
     return out
+
+
+def loop_counter_exits(fn, hb, edge_ok=None):
+    """Progress measure of an otherwise unbounded loop (head block hb): local counters c such that every turn of the
+    loop (a path from the head back to the head, along edges accepted by edge_ok) passes an increment of c, and
+    passes a test of c against an expression the loop does not assign, one of whose outcomes leaves the loop.
+    -> [(counter name, increment node, test block id)]"""
+    body = loop_body(fn, hb)
+    h0 = fn.node(hb, 0)
+    back = [p for p in fn.pred(h0) if p in body and p is not h0]
+    assigned = set()
+    for n in body:
+        if n.ev and n.ev["e"] == "S":
+            p = T.path(n.ev["lhs"])
+            if p:
+                assigned.add(p)
+    out = []
+    incs = {}
+    for n in body:
+        if n.ev and n.ev["e"] == "S" and n.ev.get("o") in ("++", "+=") and T.strip(n.ev["lhs"]).get("k") == "v":
+            if n.ev["o"] == "+=" and not ((T.const(n.ev.get("rhs")) or 0) > 0):
+                continue
+            incs.setdefault(T.strip(n.ev["lhs"])["n"], []).append(n)
+    for c, nodes in sorted(incs.items()):
+        # no other kind of store to the counter inside the loop
+        if any(n.ev and n.ev["e"] == "S" and T.path(n.ev["lhs"]) == c and n not in nodes for n in body):
+            continue
+        # every turn passes an increment
+        r = fn.reach(fn.after(h0) if len(fn.blocks[hb].get("ev", [])) else [m for (m, _) in fn.succ(h0)],
+                     avoid=nodes, edge_ok=edge_ok)
+        r = {x for x in r if x in body}
+        if any(b_ in r for b_ in back) or h0 in r:
+            continue
+        # a test of the counter with an exit
+        for bid, b in fn.blocks.items():
+            t = b.get("t")
+            end = fn.block_end(bid)
+            if end not in body or not t or not isinstance(t.get("c"), dict):
+                continue
+            cmp_ = [x for x in T.walk(t["c"]) if isinstance(x, dict) and x.get("k") == "b" and x.get("o") in ("<", "<=", ">", ">=")
+                    and c in T.vars_in(x)]
+            if not cmp_:
+                continue
+            other = set()
+            for x in cmp_:
+                other |= {v for v in T.vars_in(x) if v != c}
+            if other & assigned:
+                continue
+            leaves = [m for (m, si) in fn.succ(end) if m not in body]
+            if not leaves:
+                continue
+            r2 = fn.reach([m for (m, _) in fn.succ(h0)], avoid=[end], edge_ok=edge_ok)
+            r2 = {x for x in r2 if x in body}
+            if any(b_ in r2 for b_ in back) or h0 in r2:
+                continue
+            out.append((c, nodes[0], bid))
+    return out
